@@ -225,6 +225,7 @@ def quick_families():
         ("pentane_confs", "pentane_confs.mol2", "pentane_confs.xyz", "charges_mult.cdxml"),
         ("generated_mixed", None, None, "BOX_bridging_fragments.cdxml"),
         ("generated_confs", None, None, "substituents.cdxml"),
+        ("nonascii_utf8", None, None, "BOX_bridging_fragments.cdxml"),
     ]
 
 
@@ -259,6 +260,21 @@ class Family:
             mol2_text = "".join(m.dumps_mol2() for m in mols)
             xyz_text = "".join(m.dumps_xyz() for m in mols)
             self.generated = ["mol2", "xyz"]
+        elif name == "nonascii_utf8":
+            # molli-written texts with 2-, 3- and 4-byte UTF-8 characters in every free-text position the
+            # formats have: molecule name (= xyz comment line), atom labels, mol2 comment lines; stored
+            # as UTF-8 files.  All bundled files are ASCII.
+            self.sigtag = "[non-ascii-content]"
+            mols = [ml.Molecule.load_mol2(FILES / f) for f in ("dmf.mol2", "benzene.mol2")]
+            mols[0].name = "\u03b2-pin\u00e8ne_\u2192\u03943_\U0001d6fc"
+            mols[1].name = "benz\u00e8ne \u20ac"
+            for m in mols:
+                for a, lab in zip(m.atoms, ("C\u03b1", "H\u20ac", "N\U0001d6fc")):
+                    a.label = lab
+            note = "# na\u00efve \u2192 comment line with \U0001d6fc\n"
+            mol2_text = "".join(note + m.dumps_mol2() for m in mols)
+            xyz_text = "".join(m.dumps_xyz() for m in mols)
+            self.generated = ["mol2", "xyz", "cdxml"]
         elif name == "generated_confs":
             # molli-written conformer files (same constitution in every block)
             ens = ml.ConformerEnsemble.load_mol2(FILES / "pentane_confs.mol2")
@@ -277,6 +293,9 @@ class Family:
                     xyz_text = ""
                 self.generated = ["xyz"]
         self.text = {"mol2": mol2_text, "xyz": xyz_text, "cdxml": (FILES / cdxml).read_text()}
+        if name == "nonascii_utf8":
+            # a label of the drawing with non-ASCII characters (the file declares encoding="UTF-8")
+            self.text["cdxml"] = self.text["cdxml"].replace(">MeTol</s>", ">Me-\u03b2\u20ac\U0001d6fc</s>")
         # the unsupported formats are given a real, parseable payload (mol2), so that an
         # implementation that wrongly accepts them has something to return
         self.text["sdf"] = mol2_text
@@ -284,12 +303,12 @@ class Family:
         self.path = {}
         for f in FMTS:
             p = self.dir / f"{name}.{f}"
-            p.write_text(self.text[f])
+            p.write_text(self.text[f], encoding="utf-8")
             self.path[f] = p
             # the same content under names whose suffix says something else / nothing
             for sv in ("swap", "foreign", "none"):
                 q = self.dir / (f"{name}-holds-{f}" + suffix_for(f, sv))
-                q.write_text(self.text[f])
+                q.write_text(self.text[f], encoding="utf-8")
                 self.path[(f, sv)] = q
         # a second, different content per format (other molecule count and names): the history cells
         # overwrite a path with it
@@ -476,7 +495,11 @@ def run_reader_cell(ctx, fam, cell, given):
     want_list = cell["func"] in ("load_all", "loads_all")
 
     def viol(symptom, what):
-        ctx.violation(read_sig(cell, symptom), f"ml.{cell['func']}({cell['kind']} [suffix {cell.get('suffix', 'agree')}], fmt={cell['fmt']!r}/{cell['fmtmode']}, otype={cell['otype']}, name={cell['name']}, parser={cell['parser']}): {what}", case, repro_reader(fam, cell, given))
+        sg = read_sig(cell, symptom)
+        if getattr(fam, "sigtag", ""):
+            head, _, tail = sg.partition(":")
+            sg = head + fam.sigtag + ":" + tail
+        ctx.violation(sg, f"ml.{cell['func']}({cell['kind']} [suffix {cell.get('suffix', 'agree')}], fmt={cell['fmt']!r}/{cell['fmtmode']}, otype={cell['otype']}, name={cell['name']}, parser={cell['parser']}): {what}", case, repro_reader(fam, cell, given))
 
     if got[0] == "exc":
         ctx.outcome(("exc", got[1]))
@@ -787,6 +810,7 @@ def run_family(ctx, part):
 
             for cell in c09_extra.stream_cells(ctx.seed):
                 c09_extra.run_stream_cell(ctx, fam, cell, given)
+            c09_extra.run_encoding_cells(ctx, fam, given)
         elif sel == "options":
             from mc.props import c09_extra
 
@@ -831,6 +855,8 @@ def run(ctx):
         "path cells with an explicit format additionally x {suffix agrees, suffix names another supported format, unsupported suffix, no suffix}; "
         "plus NAME cells (c09_extra: multi-dot names, upper/mixed case suffix, dots in directory names, dot files, trailing dot, no suffix; fmt given and not given) "
         "and EXTENT cells (c09_extra: multi-record texts with a damaged 2nd / 3rd / last record or trailing garbage through every reader, otype and name); "
+        "a family of molli-written UTF-8 files with 2-, 3- and 4-byte characters in every free-text position (molecule name / xyz comment, atom labels, mol2 comment lines, a cdxml label) through the whole matrix, "
+        "ENCODING cells (c09_extra: load / load_all by path against loads / loads_all of the same text and against the class method on a stream opened as utf-8), "
         "KEY cells (c09_extra: ml.load(cdxml, key=K) for every label, every integer position incl. 0, -1 and one past the end, and '' - on the drawing and on a copy with the fragments stored in reverse order), "
         "STREAM-KIND cells (c09_extra: dump into StringIO, file objects opened w / a / r+, NamedTemporaryFile, codecs.open, a write()-only object, a tee, an os.PathLike, a bytes path; load from the corresponding sources), "
         "the name override drawn from an alphabet (empty, plain, hyphen, comma, dot, parentheses, blank, unicode, 200 characters, digits), "
@@ -907,6 +933,10 @@ def replay(ctx, case):
         cell = case["cell"]
         if cell["op"] == "read":
             run_reader_cell(ctx, fam, cell, case["given"])
+        elif cell["op"] == "encoding":
+            from mc.props import c09_extra
+
+            c09_extra._one_encoding(ctx, fam, cell, {"load": "loads", "load_all": "loads_all"}[cell["func"]], getattr(fam, "sigtag", ""))
         elif cell["op"] == "key":
             from mc.props import c09_extra
 
